@@ -16,13 +16,24 @@ RECURSIVE PostSeqs(_, _)
 PostSeqs(n, from) == IF n = 0 THEN {<< >>} ELSE {<<it>> \o r : it \in Item(30 + from), r \in PostSeqs(n - 1, from + 1)}
 
 VARIABLE s
-Init == \E rl \in BOOLEAN, sd \in DocOrNone(9), d \in DocOrNone(8), e \in EnvChoices,
-           pre \in UNION {PreSeqs(n, 1) : n \in 0..MaxPre}, post \in UNION {PostSeqs(n, 1) : n \in 0..MaxPost} :
-        \E named \in BOOLEAN :
-          \* the sub-command is NAMED on the command line, or (nothing follows it and a root-level document carries its
-          \* section) it is selected by that section alone: then only handle_subcommands merges (_actions.py:783-797)
-          /\ (~named => (post = << >> /\ (d # << >> \/ pre # << >>)))
-          /\ s = [rootl |-> rl, sdcf |-> sd, dcf |-> d, env |-> e, pre |-> pre, post |-> post, named |-> named]
+Rec(rl, sd, d, e, pre, post, sel, first, other, dotted) ==
+  [rootl |-> rl, sdcf |-> sd, dcf |-> d, env |-> e, pre |-> pre, post |-> post, sel |-> sel, first |-> first, other |-> other, dotted |-> dotted]
+\* the base universe: `a` declared first, a root default config file with the section of `a` only; `a` named on the
+\* command line, or (nothing follows and a root-level document carries its section) selected by that section alone
+InitBase == \E rl \in BOOLEAN, sd \in DocOrNone(9), d \in DocOrNone(8), e \in EnvChoices,
+               pre \in UNION {PreSeqs(n, 1) : n \in 0..MaxPre}, post \in UNION {PostSeqs(n, 1) : n \in 0..MaxPost} :
+             \E sel \in {"name", "section"} :
+               /\ (sel = "section" => (post = << >> /\ (d # << >> \/ pre # << >>)))
+               /\ s = Rec(rl, sd, d, e, pre, post, sel, TRUE, FALSE, "any")
+\* the selection universe: declaration order, a second section in the root default config file, selection by an
+\* explicit "subcommand" key in a first --cfg; fewer sources (the sub-parser's file sets x or is absent, <= 1 document, <= 1 item)
+InitSel == \E rl \in BOOLEAN, sd \in {<< >>, <<Asg("x", "set", <<9>>)>>}, d \in Doc(8), e \in EnvChoices,
+              pre \in UNION {PreSeqs(n, 1) : n \in 0..1}, post \in UNION {PostSeqs(n, 1) : n \in 0..1} :
+            \E sel \in {"name", "key"}, fo \in {<<FALSE, TRUE>>, <<TRUE, TRUE>>, <<FALSE, FALSE>>, <<TRUE, FALSE>>} :
+              /\ (sel = "key" => post = << >>)
+              /\ (sel = "name" => fo # <<TRUE, FALSE>>)           \* that combination is the base universe
+              /\ \E dotted \in (IF sel = "key" THEN {"yes", "no"} ELSE {"any"}) : s = Rec(rl, sd, d, e, pre, post, sel, fo[1], fo[2], dotted)
+Init == InitBase \/ InitSel
 Next == UNCHANGED s
 Spec == Init /\ [][Next]_s
 
@@ -30,6 +41,11 @@ Spec == Init /\ [][Next]_s
 InvAlgRefinesRef == AlgRefinesRefModuloNamed(s)
 \* design facts: without root-level documents and root default config file the sub-parser's own order is the documented one
 InvSubOnlyIsRef == (s.dcf = << >> /\ s.pre = << >>) => AlgFinal(s) \in RefOutcomes(s)
+\* a sub-command selected by a config reads its parent's default config file itself, in the documented place: when the
+\* root-level merge does not interfere (the section was pruned, no root-level document), the documented order holds
+InvParentLookupIsRef == (s.sel = "key" /\ Pruned(s) /\ s.pre = << >> /\ s.dotted = "no") => AlgFinal(s) \in RefOutcomes(s)
+\* where the renderer is free to choose the spelling of root-level documents, the spelling cannot change the outcome
+InvSpellingIrrelevantWhereFree == s.dotted = "any" => SpellingIrrelevant(s)
 \* a root document that only SETS, with no root default config file, is handled in the documented order
 InvSetOnlyIsRef == (s.dcf = << >> /\ ~RootDocAppend(s)) => AlgFinal(s) \in RefOutcomes(s)
 \* the command line after the name always wins
